@@ -4,6 +4,8 @@ import (
 	"context"
 	"iter"
 	"sync/atomic"
+
+	"github.com/openfga/openfga/internal/verifhook"
 )
 
 // kind distinguishes data nodes from the sentinel that terminates the list.
@@ -65,7 +67,9 @@ func (a *Accumulator[T]) Close() {
 	}
 	var n node[T]
 	n.Kind = end
+	verifhook.Point("mpsc.close.swap")
 	oldHead := a.head.Swap(nil)
+	verifhook.Point("mpsc.close.link")
 	oldHead.Next.Store(&n)
 	close(a.done)
 }
@@ -82,14 +86,18 @@ func (a *Accumulator[T]) Send(value T) bool {
 	var sent bool
 
 	for {
+		verifhook.Point("mpsc.send.load")
 		currentHead := a.head.Load()
 		if currentHead == nil {
 			break
 		}
+		verifhook.Point("mpsc.send.cas")
 		if !a.head.CompareAndSwap(currentHead, &head) {
 			continue
 		}
+		verifhook.Point("mpsc.send.link")
 		currentHead.Next.Store(&head)
+		verifhook.Point("mpsc.send.signal")
 		select {
 		case a.signal <- struct{}{}:
 		default:
@@ -109,10 +117,12 @@ func (a *Accumulator[T]) Recv(ctx context.Context) (T, bool) {
 
 PopLoop:
 	for {
+		verifhook.Point("mpsc.recv.load")
 		currentTail := a.tail
 		nextNode := currentTail.Next.Load()
 
 		if nextNode == nil {
+			verifhook.Point("mpsc.recv.park")
 			select {
 			case <-a.signal:
 			case <-a.done:
